@@ -143,7 +143,7 @@ def sha_rule(ctx, facts, rule="SHASEED"):
         if not ups and len(shots) == 1 and nf.nf(shots[0]["args"][0], res=R_) == "key.get_sig()" and [f for f in for_loops(fn) if t.contains(f["body"], shots[0])]:
             ctx.ok(rule, fid, "one-shot Sha512_256::digest(&key.get_sig()) per item: a hasher of its own for every key", hirq.loc(shots[0]))
             continue
-        if len(ups) != 1 or nf.nf(ups[0]["args"][0]) not in ("key.get_sig()",):
+        if len(ups) != 1 or nf.nf(ups[0]["args"][0], res=R_) not in ("key.get_sig()",):
             ctx.violation(rule, fid, "digest input", hirq.loc(fn), "expected exactly one Sha512_256 update fed with key.get_sig(); found %s" % [nf.nf(u["args"][0])[:40] for u in ups])
             continue
         up = ups[0]
